@@ -9,7 +9,7 @@ STAGE_PROPS = {
  'iter':    'C01 C02 C04 C08 C09 C10 C19',
  'cache':   'C01 C02 C05 C07 C11 C12 C13 C17',
  'pktgen':  'C01 C02 C05 C07 C11 C12 C13 C16 C17 C19',
- 'fill':    'C01 C02 C05 C07 C11 C13 C17 C19',
+ 'fill':    'C01 C02 C05 C07 C11 C13 C17 C18 C19',
  'send':    'C01 C05 C07 C11 C12 C13 C15 C16 C19',
  'recv':    'C03 C06 C11 C12 C16 C20',
  'errs':    'C03 C07 C08 C12 C13 C16 C20',
